@@ -64,21 +64,23 @@ Proof.
   intro Hin. induction fuel as [|fuel IH]; intros total stream scheds p acc res W C H.
   - revert H. cbn [init_loop]. destruct (total <=? length acc) eqn:Ht; intro H; [|discriminate].
     inversion H; subst. apply Nat.leb_le in Ht. split; [exists 0; simpl; rewrite app_nil_r; auto | lia].
-  - revert H. cbn [init_loop]. destruct (total <=? length acc) eqn:Ht.
+  - revert H. cbn [init_loop]. cbv zeta. destruct (total <=? length acc) eqn:Ht.
     { intro H. inversion H; subst. apply Nat.leb_le in Ht. split; [exists 0; simpl; rewrite app_nil_r; auto | lia]. }
     apply Nat.leb_gt in Ht.
     set (bsz := Nat.min (total - length acc) n).
-    destruct (length (firstn bsz stream) <? bsz); [intro H0; discriminate H0|].
-    destruct (batch fixed (map snd (firstn bsz stream)) (hd [] scheds) p) as [p1 o] eqn:Hb.
-    destruct (bo_done o) eqn:D; cbn [negb]; [|intro H0; discriminate H0].
-    destruct (bo_raised o) eqn:Hr; [intro H0; discriminate H0|]. intro H.
+    match goal with |- context [if ?c then IStuck else _] => destruct c end; [intro H0; discriminate H0|].
+    match goal with |- context [let (_, _) := ?b in _] => destruct b as [p1 o] eqn:Hb end.
+    destruct (bo_done o) eqn:D; cbn [negb]; cbv iota; [|intro H0; discriminate H0].
+    destruct (bo_raised o) eqn:Hr; cbv iota; [intro H0; discriminate H0|]. intro H.
     destruct (batch_inorder fixed n _ _ _ _ _ Hin W C Hb D) as (W1 & C1 & Ex).
     pose proof (exact_raised_none _ _ Ex Hr) as Hno.
     destruct Ex as (Hy & _). rewrite Hy, keep_valid in H by exact Hno.
     destruct (IH _ _ _ _ _ _ W1 C1 H) as [[k Hk] Hl]. split.
     + exists (bsz + k). rewrite Hk, firstn_add, valid_app, app_assoc. reflexivity.
     + intro Hle. apply Hl. rewrite app_length. pose proof (valid_length (firstn bsz stream)) as L1.
-      pose proof (firstn_le_length bsz stream) as L2. unfold bsz in *. lia.
+      pose proof (firstn_le_length bsz stream) as L2.
+      pose proof (Nat.le_min_l (total - length acc) n) as L3. fold bsz in L3. clearbody bsz.
+      apply (Nat.le_trans _ (length acc + (total - length acc))); [apply Nat.add_le_mono_l; eapply Nat.le_trans; [exact L1 | eapply Nat.le_trans; [exact L2 | exact L3]] | lia].
 Qed.
 
 Theorem init_serial fixed n total (stream : list point) scheds res :
